@@ -233,12 +233,13 @@ def c17_worker(job, acc):
     for im in av:
         acc.count("impl:" + im)
     resolutions = list(range(60, 3601, 60))           # 1..60 min
-    if tier == "quick":
-        resolutions = [60, 120, 300, 420, 600, 780, 900, 1200, 1800, 2700, 3540, 3600]
+    # every whole-minute resolution in both tiers (seeded change C17-c broke exactly 49 and 51 min: multiplication by
+    # the rounded reciprocal instead of a division); quick saves on offsets and spans instead
     offsets = [timedelta(0), timedelta(minutes=17), timedelta(minutes=59, seconds=30), timedelta(hours=13, minutes=1)]
     spans = [timedelta(hours=5), timedelta(days=1), timedelta(days=2, hours=7, minutes=13), timedelta(days=3)]
     if tier == "quick":
         spans = [timedelta(hours=5), timedelta(days=1, hours=7, minutes=13)]
+        offsets = offsets[:1] + offsets[2:3]
     base = datetime(2025, 3, 29)   # a DST weekend in Europe: conversions are on the naive project clock and must not care
     combos = [(r, o, s) for r in resolutions for o in offsets for s in spans]
     n_done = 0
